@@ -330,16 +330,23 @@ def _iterative(col, rule, sx: SCtx, q, whiles, adds, e_nid, e_call, graph_p, src
     unvisited = ("cmp", "not in", nb, vis)
     for nid, c in pushes:
         t = sym.of(c.args[0], nid) if c.args else ("opaque", "?")
-        col.add(rule, f"{q}#pushed-frame", is_frame(t, nb), w.loc(nid),
-                "a pushed frame pairs the successor with a fresh iterator over *its* successors in the given graph", S.show(t))
         # the vertex pushed was found unvisited: at the push, or where the value pushed was picked
         vexpr = c.args[0].elts[0] if (c.args and isinstance(c.args[0], ast.Tuple) and c.args[0].elts) else None
         prov = sx.guarded_values(vexpr, nid) if vexpr is not None else []
         picked_unvisited = bool(prov) and all(tv == nb and unvisited in cs for tv, cs in prov)
+        same_as_nb = set()
+        if vexpr is not None and prov and all(tv == nb for tv, _cs in prov):
+            # on every feasible path the vertex pushed is the successor just picked (a `{v | None}` merged over an infeasible path is v)
+            vt = sym.of(vexpr, nid)
+            if vt != nb:
+                same_as_nb.add(vt)
+                t = S.subst(t, {vt: nb})
+        col.add(rule, f"{q}#pushed-frame", is_frame(t, nb), w.loc(nid),
+                "a pushed frame pairs the successor with a fresh iterator over *its* successors in the given graph", S.show(t))
         col.add(rule, f"{q}#descend-only-unvisited", sx.under(nid, unvisited) or picked_unvisited, w.loc(nid),
                 "descent into a successor happens only if it is not yet visited",
                 f"conditions: {[S.show(x) for x in sx.conds(nid)]}")
-        marks = [ev.nid for ev, m in add_evs if m["x"] == nb]
+        marks = [ev.nid for ev, m in add_evs if m["x"] == nb or m["x"] in same_as_nb]
         br = [b for b in sx.branches(unvisited) if fr.id in cfg.dominators(b)]
         marked = bool(marks) and bool(br) and all(R.must_pass(b, wh.id, marks) or not R.path_avoiding(b, nid, []) for b in br) \
             and all(R.must_pass(b, wh.id, marks) for b in br if R.path_avoiding(b, nid, []))
